@@ -461,7 +461,7 @@ func isAlnumR(r rune) bool { return isAlphaR(r) || isDigitR(r) }
 var refRunes = []rune{-1, ' ', '\n', '\r', '\t', 'a', 'z', 'A', 'Z', '_', '-', '+', '0', '1', '9', 'x', 'e', 'E', 'f', 'F', '.', '\'', '}', '!', '<', '>', '=', '&', '|', '(', ')', '[', ']', '*', ','}
 
 // refStep is the token automaton of the documented expression language: identifiers [A-Za-z_][A-Za-z0-9_-]*, strings in single
-// quotes with '' as the only escape, numbers in the JSON forms plus 0x hex (a number must not run into a letter or digit),
+// quotes with ” as the only escape, numbers in the JSON forms plus 0x hex (a number must not run into a letter or digit),
 // the operators and punctuation of the grammar, }} as end marker, white space between tokens.
 // relax names documented-language features a lexer may lack; they are only used to name a deviation precisely.
 func refStep(state string, r rune, relax map[string]bool) refAct {
